@@ -412,12 +412,19 @@ func (s *Scheduler) run(emitter Emitter, freq time.Duration) {
 		// If no jobs are ready, this leaves `readyc` as nil. Trying
 		// to insert into a nil channel never resolves so the select
 		// will never pick that path.
+		//
+		// The same applies while every worker is accounted for: a
+		// worker becomes free to receive as soon as it has posted its
+		// result to donec, before the loop has processed that result.
+		// Dispatching to it then would leave more results outstanding
+		// than donec can hold, and workers would block forever on
+		// donec if the loop exits early.
 		readyc := s.readyc
 		var (
 			nextEl *list.Element
 			next   *ScheduledJob
 		)
-		if ready.Len() > 0 {
+		if ready.Len() > 0 && ongoing < s.concurrency {
 			nextEl = ready.Front()
 			next = nextEl.Value.(*ScheduledJob)
 		} else {
